@@ -1,5 +1,5 @@
 """Checks of the Channel.tla family: C01 C02 C05 C06 C11 C18."""
-import json, os, random, shutil, subprocess, time
+import json, os, random, re, shutil, subprocess, time
 from vlib import *
 from chanlib import *
 
@@ -203,6 +203,24 @@ def prove_inductive(wd, module, init, indinit, indinv, timeout=600):
     return out
 
 
+def prove_tlaps(wd, module, timeout=900):
+    """Machine-checked proof (TLAPS) of the theorems in spec/<module>.tla; a failed proof is Inconclusive."""
+    for fn in os.listdir(SPEC):
+        if fn.endswith(".tla"):
+            shutil.copy(os.path.join(SPEC, fn), wd)
+    t0 = time.time()
+    try:
+        p = subprocess.run(["tlapm", "--threads", "8", module + ".tla"], cwd=wd, stdout=subprocess.PIPE, stderr=subprocess.STDOUT,
+                           timeout=timeout, text=True)
+    except (subprocess.TimeoutExpired, OSError) as e:
+        raise Inconclusive("tlapm did not run to completion: %s" % e)
+    m = re.search(r"All (\d+) obligations? proved", p.stdout)
+    if not m:
+        raise Inconclusive("TLAPS could not prove %s:\n%s" % (module, p.stdout[-800:]))
+    shutil.rmtree(os.path.join(wd, ".tlacache"), ignore_errors=True)
+    return "%s obligations proved in %.1fs" % (m.group(1), time.time() - t0)
+
+
 def check_C02(cx):
     cx.build()
     quick = cx.tier == "quick"
@@ -227,6 +245,9 @@ def check_C02(cx):
     ap = prove_inductive(cx.wd, "Ownership", "Init", "IndInit", "IndInv")
     cx.extra_cov["apalache_inductive_invariant"] = ap
     log("  Apalache: Ownership!IndInv inductive (unbounded): %s" % ap)
+    tp = prove_tlaps(cx.wd, "OwnershipProof")
+    cx.extra_cov["tlaps_proof_Spec_implies_always_IndInv"] = tp
+    log("  TLAPS: Ownership!Spec => []IndInv: %s" % tp)
     for name, c in mcs:
         mc_and_replay_cex(cx, "MC" + name.replace("-", ""), c, inv + ["OwnIndInv"], properties=["RefinesOwnership"],
                           base="ChannelOwn", what="C02 safety core + refinement of Ownership, " + name)
